@@ -151,6 +151,10 @@ def cross_basetype_last(ref, W):
         return
     proj = W.leaves[0].split("/")[0]
     codes = sorted({s.split("/")[1] for s in W.leaves if "/" in s})
+    # '>' in the project position: every basetype's typed forms stay in one "last" group
+    for T in ["*"] + ([",".join(codes)] if len(codes) > 1 else []):
+        for n in range(2, ref.maxlen + 1):
+            yield "/".join([">", T] + ["*"] * (n - 2))
     for T in ["*", ">"] + ([",".join(codes)] if len(codes) > 1 else []):
         for n in range(3, ref.maxlen + 1):
             for i in range(2, n):
